@@ -190,6 +190,8 @@ def frames_part(c, tier):
         raise vf.MachineryError("vacuous Frames run: %s never taken" % never)
     c.add_tlc("Frames", mc, "LatestWins, Innermost, RemoveExact on every history of 4 symbol-table operations (3 frames, names a / b / anonymous); behaviours exported")
     cases = [e for e in mc.emitted if "ops" in e]
+    closed = vf.run_tlc("Frames", "Frames_closed.cfg", c.run_dir, timeout=1500, workers=12, keep_out=False)
+    c.add_tlc("Frames(closed)", closed, "LatestWins, Innermost on the CLOSED state space over 2 symbols and at most 3 entries per frame: histories of any length (no operation bound, nothing logged)")
     if not quick:
         deep = vf.run_tlc("Frames", "Frames_deep.cfg", c.run_dir, timeout=3000, workers=12, keep_out=False)
         c.add_tlc("Frames(deep)", deep, "the same invariants on every history of 5 operations (not exported)")
